@@ -1,11 +1,12 @@
 """property id -> check function"""
 import json
-from . import p_fs, p_plan, p_names
+from . import p_fs, p_plan, p_names, p_e2e
 
 CHECKS = {
     "C01": p_plan.check_c01,
     "C02": p_plan.check_c02,
     "C03": p_plan.check_c03,
+    "C04": p_e2e.check_c04,
     "C05": p_plan.check_c05,
     "C09": p_plan.check_c09,
     "C10": p_plan.check_c10,
